@@ -619,6 +619,17 @@ func runPoolProfile(profile string, thorough bool, seed int64, out string) (*Sta
 				}
 			}
 		}
+		// twins: allocators of ONE element type whose totals (channels x length, channels x capacity) agree while their
+		// channel counts differ, used one after the other in this process: each pool hands out its own shape only
+		for i, ty := range []string{"int16", "float64", "uint8"} {
+			for _, sh := range [][3]int{{2, 3, 6}, {3, 2, 4}, {1, 6, 12}, {6, 1, 2}} {
+				poolGuard(pw, func() {
+					g, r := PoolSequential(pw, rng, ty, sh[0], sh[1], sh[2], 25+i, 2, false)
+					st.Extra["gets"] += g
+					st.Extra["reused_gets"] += r
+				})
+			}
+		}
 	case "poolcycle":
 		EnableMeasure()
 		debug.SetGCPercent(-1)
@@ -670,6 +681,13 @@ func runPoolProfile(profile string, thorough bool, seed int64, out string) (*Sta
 			st.Extra["gets"] += g
 			st.Extra["reused_gets"] += r
 			st.Extra[fmt.Sprintf("G%d_M%d_P%d", c.G, c.M, c.P)] = g
+		}
+		// twins (see poolseq): same element type, equal totals, different channel counts, one after the other
+		for i, sh := range [][3]int{{3, 16, 32}, {2, 24, 48}, {4, 12, 24}} {
+			g, r := PoolConcurrent(pw, seed+30+int64(i), "int32", sh[0], sh[1], sh[2], 6, 40, 4, false)
+			st.Extra["gets"] += g
+			st.Extra["reused_gets"] += r
+			st.Extra[fmt.Sprintf("twin_%d", i)] = g
 		}
 		// zero-shaped pools (no capacity / no channels) shared by 8 goroutines
 		for i, sh := range [][3]int{{2, 0, 0}, {0, 0, 3}} {
